@@ -35,7 +35,7 @@ var (
 	uints64  = []uint64{0, 1, 1 << 63, math.MaxUint64, 1<<53 + 1}
 	floats32 = []float32{0, float32(math.Copysign(0, -1)), 1.5, -1.5, float32(math.NaN()), float32(math.Inf(1)), float32(math.Inf(-1)), math.MaxFloat32, math.SmallestNonzeroFloat32, 0.1}
 	floats64 = []float64{0, math.Copysign(0, -1), 1.5, -1.5, math.NaN(), math.Inf(1), math.Inf(-1), math.MaxFloat64, math.SmallestNonzeroFloat64, 0.1, float64(float32(0.1))}
-	strs     = []string{"", "a", "é", "€", "😀", "\x7f"}
+	strs     = []string{"", "a", "é", "€", "😀", "\x7f", "\ufffd"} // U+FFFD is VALID UTF-8 that decodes to utf8.RuneError
 	badStrs  = []string{"\x80", "\xc0\x80", "\xed\xa0\x80", "\xe2\x82", "a\xffb"}
 	byteses  = [][]byte{nil, {}, {0}, []byte("ab"), {0xff, 0xfe}}
 )
@@ -178,6 +178,7 @@ func MapKeys(kd protoreflect.FieldDescriptor, o Opt) []protoreflect.MapKey {
 		}
 		if o.InvalidUTF8 {
 			add(protoreflect.ValueOfString("\xff"))
+			add(protoreflect.ValueOfString("\ufffd"))
 		}
 	}
 	return out
